@@ -115,4 +115,121 @@ theorem C03_rejects (v : View) (dq : Id → D) (hyb : D → H) (limit searchSize
   unfold search greedySearch
   simp [h]
 
+
+/-- C03 (b): a pre-filter with at most `searchSize` members (`f`: the bitmap in iteration order, without
+duplicates, not containing the entry node id — point ids start at 2) is answered exactly: the ids of the
+answer are the first `limit` entries of a distance-sorted enumeration `E` of the filter members that are live
+and carry the field — exact k nearest neighbours up to the order among equidistant points. -/
+theorem C03_exact_filter (R : Nat) (g : Graph) (L : List Id) (hWF : WF R g L) (dq : Id → D) (hyb : D → H)
+    (limit searchSize : Nat) (f : List Id) (hk : limit ≤ searchSize)
+    (hfs : f.length ≤ searchSize) (hfn : f.Nodup) (hfe : entry ∉ f) :
+    ∃ (res : List (Hit D H)) (E : List Id), search g.view dq hyb limit searchSize (some f) (g.vecs.length + 1) = .ok res ∧
+      E.Perm (f.filter (fun i => decide (i ∈ L))) ∧ E.Pairwise (fun a b => dq a ≤ dq b) ∧
+      res.map (·.id) = E.take limit := by
+  obtain ⟨he, hvecs, hcons, hlive⟩ := wf_view R g L hWF
+  obtain ⟨st, hloop, hI, _, hgs⟩ := greedySearch_ok g.view dq limit searchSize (some f) g.vecs hk he hvecs hcons
+  -- the filter-mode invariant at loop exit
+  have hF : FInv g.view dq limit searchSize f st := by
+    have := loop_induct g.view dq (some f) searchSize
+      (fun st => LInv g.view dq (some f) st ∧ FInv g.view dq limit searchSize f st)
+      (fun st e es h1 h2 _ => ⟨LInv_step _ _ _ _ st e es h1.1 h2, FInv_step _ _ _ _ _ st e es h1.1 h1.2 h2⟩)
+      _ _ st hloop ⟨initState_inv _ _ _ _ _ he, FInv_init _ _ _ _ _⟩
+    exact this.1.2
+  obtain ⟨⟨hsorted, hlen, hinv, hrest⟩, hseenF, hseeded, hcap⟩ := hF
+  -- the candidates: members of the filter with a vector = members that are live and carry the field
+  have hfp : filterPoints g.view searchSize f = f.filter g.view.hasVec := by
+    unfold filterPoints; rw [List.take_of_length_le hfs]
+  have hC : f.filter g.view.hasVec = f.filter (fun i => decide (i ∈ L)) := by
+    apply List.filter_congr
+    intro i hi
+    have hie : i ≠ entry := fun h => hfe (h ▸ hi)
+    by_cases hv : g.view.hasVec i = true
+    · rcases hlive i hv with h | h
+      · exact absurd h hie
+      · simp [hv, h]
+    · have : i ∉ L := by
+        intro hl
+        apply hv
+        obtain ⟨⟨_, _, hkv, _⟩, _, _, hkl, _⟩ := (C10_wf_meaning_aux R g L).mp hWF
+        have : i ∈ g.vecs := (hkv i).mp ((hkl i).mpr (Or.inr hl))
+        simpa [Graph.view, Graph.hasVec] using this
+      simp [hv, this]
+  rw [← hC]
+  have hseen_iff : ∀ i, i ∈ st.result.seen ↔ i ∈ f.filter g.view.hasVec := by
+    intro i
+    constructor
+    · intro hi; exact List.mem_filter.mpr (hseenF i hi)
+    · intro hi; exact hseeded i (hfp ▸ hi)
+  -- the enumeration: what is kept, then the rest sorted by distance
+  let ids := st.result.items.map (·.id)
+  let le : Id → Id → Bool := fun a b => decide (dq a ≤ dq b)
+  let rest := ((f.filter g.view.hasVec).filter (fun i => !ids.contains i)).mergeSort le
+  have hrest_mem : ∀ i, i ∈ rest ↔ (i ∈ f.filter g.view.hasVec ∧ i ∉ ids) := by
+    intro i
+    simp only [rest, List.mem_mergeSort, List.mem_filter, Bool.not_eq_true', List.contains_eq_mem, decide_eq_false_iff_not]
+  have hids_sub : ∀ i ∈ ids, i ∈ f.filter g.view.hasVec := by
+    intro i hi
+    obtain ⟨e, he', rfl⟩ := List.mem_map.mp hi
+    exact (hseen_iff _).mp (hinv.sub e he')
+  unfold search
+  rw [hgs]
+  refine ⟨_, ids ++ rest, rfl, ?_, ?_, ?_⟩
+  · -- permutation
+    apply (List.perm_ext_iff_of_nodup ?_ (hfn.sublist List.filter_sublist)).mpr
+    · intro i
+      rw [List.mem_append, hrest_mem]
+      constructor
+      · rintro (h | h)
+        · exact hids_sub i h
+        · exact h.1
+      · intro h
+        by_cases hi : i ∈ ids
+        · exact Or.inl hi
+        · exact Or.inr ⟨h, hi⟩
+    · rw [List.nodup_append]
+      refine ⟨hinv.nodup, ?_, ?_⟩
+      · exact ((List.mergeSort_perm _ _).nodup_iff).mpr ((hfn.sublist List.filter_sublist).sublist List.filter_sublist)
+      · intro a ha b hb hab
+        subst hab
+        exact ((hrest_mem a).mp hb).2 ha
+  · -- sorted by distance
+    rw [List.pairwise_append]
+    refine ⟨?_, ?_, ?_⟩
+    · show (st.result.items.map (·.id)).Pairwise _
+      rw [List.pairwise_map]
+      refine List.Pairwise.imp_of_mem ?_ hsorted
+      intro a b ha hb hab
+      rw [← (hinv.ok a ha).1, ← (hinv.ok b hb).1]; exact hab
+    · have := List.pairwise_mergeSort (le := le)
+        (fun a b c h1 h2 => by simp only [le, decide_eq_true_eq] at *; exact le_trans h1 h2)
+        (fun a b => by simp only [le, Bool.or_eq_true, decide_eq_true_eq]; exact le_total _ _)
+        ((f.filter g.view.hasVec).filter (fun i => !ids.contains i))
+      refine List.Pairwise.imp ?_ this
+      intro a b hab
+      simpa [le] using hab
+    · intro a ha b hb
+      obtain ⟨e, he', rfl⟩ := List.mem_map.mp ha
+      obtain ⟨hb1, hb2⟩ := (hrest_mem b).mp hb
+      have := (hrest b ((hseen_iff b).mpr hb1) hb2).2 e he'
+      rw [← (hinv.ok e he').1]; exact this
+  · -- the answer is the prefix
+    have hfilt : (resultOf (some f) st).items.filter (fun e => e.id != entry) = st.result.items := by
+      show st.result.items.filter _ = _
+      apply List.filter_eq_self.mpr
+      intro e he'
+      have := (hseenF _ (hinv.sub e he')).1
+      have : e.id ≠ entry := fun h => hfe (h ▸ this)
+      simpa using this
+    rw [hfilt, List.map_map]
+    show ((st.result.items.take limit).map (·.id)) = _
+    rw [List.map_take]
+    show ids.take limit = (ids ++ rest).take limit
+    by_cases hr : rest = []
+    · rw [hr, List.append_nil]
+    · obtain ⟨b, hb⟩ := List.exists_mem_of_ne_nil _ hr
+      obtain ⟨hb1, hb2⟩ := (hrest_mem b).mp hb
+      have hfull := (hrest b ((hseen_iff b).mpr hb1) hb2).1
+      have hl : ids.length = limit := by simp [ids, hfull, hcap]
+      rw [List.take_left' hl, List.take_of_length_le (by omega)]
+
 end Sema.C03
